@@ -127,3 +127,44 @@ def show(e, depth=4):
     if k == "proj":
         return "(%s)%s" % (show(e[1], depth - 1), e[2])
     return k
+
+
+# ---------------------------------------------------------------------------- boolean structure of Choice / bool expressions
+
+_NOT = re.compile(r"(<subtle::Choice as core::ops::Not>::not$|<bool as core::ops::Not>::not$)")
+_AND = re.compile(r"(<subtle::Choice as core::ops::BitAnd>::bitand$|<bool as core::ops::BitAnd>::bitand$)")
+_OR = re.compile(r"(<subtle::Choice as core::ops::BitOr>::bitor$|<bool as core::ops::BitOr>::bitor$)")
+_SAME = re.compile(r"(<bool as core::convert::From<subtle::Choice>>::from$|<subtle::Choice as core::convert::Into<bool>>::into$|"
+                   r"subtle::Choice::unwrap_u8$|<subtle::Choice as core::convert::From<u8>>::from$|core::hint::black_box)")
+
+
+def implications(e, val):
+    """Atoms (sub-expressions that are not Choice/bool connectives) whose value is forced when the
+    boolean expression `e` evaluates to `val` (True/False).  Returns list of (atom_expr, bool)."""
+    e = strip(e)
+    if not isinstance(e, tuple):
+        return []
+    if e[0] == "call":
+        n = e[1]
+        if _NOT.search(n):
+            return implications(e[2][0], not val)
+        if _SAME.search(n):
+            return implications(e[2][0], val)
+        if _AND.search(n):
+            return implications(e[2][0], True) + implications(e[2][1], True) if val else []
+        if _OR.search(n):
+            return implications(e[2][0], False) + implications(e[2][1], False) if not val else []
+        return [(e, val)]
+    if e[0] == "un" and e[1] == "Not":
+        return implications(e[2], not val)
+    if e[0] == "bin" and e[1] == "BitAnd":
+        return implications(e[2], True) + implications(e[3], True) if val else []
+    if e[0] == "bin" and e[1] == "BitOr":
+        return implications(e[2], False) + implications(e[3], False) if not val else []
+    if e[0] == "bin" and e[1] in ("Eq", "Ne"):
+        a, b = strip(e[2]), strip(e[3])
+        for x, k in ((a, b), (b, a)):
+            if k[0] == "const" and k[1] in (0, 1):
+                same = (k[1] == 1) == (e[1] == "Eq")
+                return implications(x, val if same else not val)
+    return [(e, val)]
